@@ -226,7 +226,11 @@ pub fn gen_status(seed: u64, index: usize, tier: Tier) -> StatusPlan {
     };
     let nextra = if index < status_sweep(tier) { 0 } else { rng.usize(0, 3) };
     let extras = (0..nextra).map(|i| (format!("x-extra-{i}"), format!("v{}", rng.range(0, 100)))).collect();
-    StatusPlan { base, status, extras, style: *rng.pick(&[rc::EncStyle::PlainLiteral, rc::EncStyle::HuffmanLiteral, rc::EncStyle::Static { huffman: false }]) }
+    // a status that has its own row in the QPACK static table is sent as an indexed field line
+    // (exercises the endpoint's copy of that row); everything else in a sampled style
+    let in_table = status.as_ref().map(|s| rc::STATIC_TABLE.iter().any(|(n, v)| *n == ":status" && v == s)).unwrap_or(false);
+    let style = if in_table && index < status_sweep(tier) { rc::EncStyle::Static { huffman: false } } else { *rng.pick(&[rc::EncStyle::PlainLiteral, rc::EncStyle::HuffmanLiteral, rc::EncStyle::Static { huffman: false }]) };
+    StatusPlan { base, status, extras, style }
 }
 
 #[derive(Debug, PartialEq)]
